@@ -495,6 +495,31 @@ def run(repo, rep):
             else:
                 rep.check(p_.raised is None and not prov(p_.value).endswith('.getvalue()'), 'C18.e', 'pretty_repr:fallback-only-unregistered', pr_.where,
                           'default repr only when nothing is registered', 'pretty_repr returns %s for an unregistered type' % (prov(p_.value) if p_.value is not None else None))
+        # ... and it is the same call as pformat(instance): every setting comes from the configured defaults
+        def bound(entry):
+            out = dict(zip(pts.params, [prov(x) for x in entry[1]]))
+            out.update({k_: prov(v_) for k_, v_ in entry[2].items()})
+            return out
+        # (under defaults changed by set_default_config to values that differ from every built-in default, so that a setting pinned
+        # by pretty_repr - depth=None, width=79 ... - shows)
+        rec2 = Recorder(repo)
+        sdc_ = m.funcs['set_default_config']
+        pre_ = rec2.it.explore(sdc_, [], {s_: Const(41 + i_) for i_, s_ in enumerate(settings) if s_ in sdc_.params})
+        if len(pre_) != 1 or pre_[0].raised is not None:
+            raise Undecided('set_default_config could not be interpreted before pretty_repr')
+        rec2.log.clear()
+        rec2.it.explore(pr_, [Sym('OBJ')], {})
+        mine = [bound(e) for e in rec2.log if e[0] == 'pipeline']
+        rec2.log.clear()
+        rec2.it.explore(m.funcs['pformat'], [Sym('OBJ')], {})
+        ref = [bound(e) for e in rec2.log if e[0] == 'pipeline']
+        n += 1
+        rep.check(len(mine) == 1 and len(ref) == 1 and mine[0] == ref[0], 'C18.e', 'pretty_repr:same-settings-as-pformat', pr_.where,
+                  'the repr of a registered type is printed under the configured defaults, like pformat(instance)',
+                  'pretty_repr prints the instance with %s where pformat(instance) uses %s: repr() and pformat() of the same object disagree once the '
+                  'defaults are changed with set_default_config' % (
+                      {k_: v_ for k_, v_ in (mine[0] if mine else {}).items() if not ref or ref[0].get(k_) != v_}, 
+                      {k_: v_ for k_, v_ in (ref[0] if ref else {}).items() if not mine or mine[0].get(k_) != v_}), nontrivial=True)
         chk = [e for e in rec.log if e[0] == 'is_registered']
         n += 1
         rep.check(bool(chk) and all(prov(e[1][0]) == 'type(OBJ)' for e in chk), 'C18.e', 'pretty_repr:checks-own-type', pr_.where,
